@@ -208,3 +208,78 @@ def report(res, index, wanted, rule="COPY-1"):
                 f"line but `{f['kept']}` was left (expected `{f['expected']}`): a copy-and-paste slip")
     if not hits:
         res.ok(rule, "parallel statements renamed consistently", nontrivial=False)
+    if rule == "COPY-1":
+        report_chunks(res, index, wanted)
+
+
+# ----------------------------------------------------------------------------- CHUNK-1
+def _floor_chunk_loops(fn_node):
+    """loops `for i in range(N // B)` (the trip count possibly bound to a local first, possibly inside max(.., 1)) whose
+    body slices with i * B .. (i + 1) * B: the trailing N % B elements are never processed."""
+    assigns = {}
+    for n in ast.walk(fn_node):
+        if isinstance(n, ast.Assign) and len(n.targets) == 1 and isinstance(n.targets[0], ast.Name):
+            assigns.setdefault(n.targets[0].id, n.value)
+
+    def floor_div(e, depth=0):
+        if depth > 3:
+            return None
+        if isinstance(e, ast.Name) and e.id in assigns:
+            return floor_div(assigns[e.id], depth + 1)
+        if isinstance(e, ast.Call) and isinstance(e.func, ast.Name) and e.func.id in ("max", "int") and e.args:
+            for a in e.args:
+                r = floor_div(a, depth + 1)
+                if r is not None:
+                    return r
+            return None
+        if isinstance(e, ast.BinOp) and isinstance(e.op, ast.FloorDiv):
+            # ceil idioms:  -(-n // b)   (n + b - 1) // b
+            num = ast.unparse(e.left).replace(" ", "")
+            den = ast.unparse(e.right).replace(" ", "")
+            if num.startswith("-") or f"+{den}-1" in num or f"-1+{den}" in num:
+                return None
+            return e
+        return None
+
+    out = []
+    for loop in ast.walk(fn_node):
+        if not (isinstance(loop, ast.For) and isinstance(loop.iter, ast.Call) and isinstance(loop.iter.func, ast.Name)
+                and loop.iter.func.id == "range" and loop.iter.args and isinstance(loop.target, ast.Name)):
+            continue
+        stop = loop.iter.args[-1] if len(loop.iter.args) <= 2 else loop.iter.args[1]
+        fd = floor_div(stop)
+        if fd is None:
+            continue
+        i = loop.target.id
+        den = ast.unparse(fd.right).replace(" ", "")
+        body_txt = "".join(ast.unparse(b) for b in loop.body).replace(" ", "")
+        if (f"{i}*{den}" in body_txt or f"{den}*{i}" in body_txt) and (f"({i}+1)*{den}" in body_txt or f"{den}*({i}+1)" in body_txt):
+            # a remainder handled after the loop?
+            after = [n for n in ast.walk(fn_node) if getattr(n, "lineno", 0) > loop.end_lineno]
+            tail = any(isinstance(n, ast.BinOp) and isinstance(n.op, ast.Mod) and ast.unparse(n.right).replace(" ", "") == den for n in after)
+            if not tail:
+                out.append((loop, fd))
+    return out
+
+
+def report_chunks(res, index, wanted, rule="CHUNK-1"):
+    """CHUNK-1 for the functions selected by wanted(dict with cls/top/func/module): a batch processed in blocks covers all of it."""
+    n = 0
+    for mname, m in sorted(index.modules.items()):
+        if not mname.startswith("coxeter") or "extern" in mname:
+            continue
+        items = [(None, f) for f in m.functions.values()]
+        for c in m.classes.values():
+            items += [(c, f) for f in c.methods.values()]
+            items += [(c, p.getter) for p in c.props.values() if p.getter] + [(c, p.setter) for p in c.props.values() if p.setter]
+        for c, f in items:
+            info = {"cls": c.name if c else "", "top": f.name, "func": f.name, "module": mname}
+            if not wanted(info):
+                continue
+            n += 1
+            for loop, fd in _floor_chunk_loops(f.node):
+                key = f"{(c.name + '.') if c else ''}{f.name}:floor-chunks"
+                res.bad(rule, key, f"{f.file}:{loop.lineno}", f"the block loop runs `{ast.unparse(fd)[:50]}` times (floor division) and slices "
+                        f"block i as [i*B:(i+1)*B]: the trailing len % B elements are never processed (a batch that is not a multiple of the block "
+                        "size is silently truncated)")
+    return n
